@@ -84,6 +84,10 @@ Defs == <<
   [name |-> "optional-rest",     setup |-> <<EAsg("g", N(10)), EAsg("f", ELam(<<Req("x"), Prm("y", "opt"), Prm("z", "rest")>>, EList(<<X, Y, EId("z"), G>>)))>>],
   [name |-> "conditional",       setup |-> <<EAsg("g", N(1)), EAsg("f", Lam1(EIf(EBin("lt", X, G), Plus(G, G), EBin("sub", X, G))))>>],
   [name |-> "late-bound",        setup |-> <<EAsg("f", Lam1(Plus(X, G)))>>],
+  [name |-> "self-name-captured", setup |-> <<EAsg("f", EDo(<<EAsg("g", N(5)), EAsg("g", Lam1(Plus(G, X)))>>, G))>>],
+  [name |-> "compose-named-like-a-capture", setup |-> <<EAsg("h", ELam(<<Req("f"), Req("g")>>, Lam1(ECall(EId("f"), <<ECall(G, <<X>>)>>)))), EAsg("k", Lam1(Plus(X, N(1)))), EAsg("f", ECall(EId("h"), <<EId("k"), EId("k")>>))>>],
+  [name |-> "closure-as-operand", setup |-> <<EAsg("g", N(10)), EAsg("h", Lam1(Plus(X, G))), EAsg("f", Lam1(EIf(EBin("ne", EId("h"), ELit(Null)), ECall(EId("h"), <<X>>), X)))>>],
+  [name |-> "closure-as-left-operand-of-via", setup |-> <<EAsg("h", Lam1(Plus(X, N(1)))), EAsg("f", Lam1(EBin("coalesce", EBin("via", EList(<<X>>), EId("h")), N(0))))>>],
   \* data in the captured scope
   [name |-> "captures-record",   setup |-> <<EAsg("g", ERec(<<RStatic(<<12>>, N(10)), RStatic(<<12, 2, 13>>, EList(<<N(1)>>)), RStatic(<<>>, ELit(Null))>>)), EAsg("f", Lam1(Plus(X, EDot(G, <<12>>))))>>],
   [name |-> "captures-shorthand", setup |-> <<EAsg("a", N(10)), EAsg("f", Lam1(ERec(<<RShort("a"), RStatic(<<13>>, X)>>)))>>],
